@@ -158,11 +158,14 @@ def usable_slots():
         except Exception:
             data = None
     if data is None:
-        data = {"slots": [], "children": []}
+        data = {"slots": [], "children": [], "parseable": []}
         for ot in docs.object_types():
             for it in docs.slot_items(ot):
-                if not check_slot(ot, it):
+                bad = check_slot(ot, it)
+                if not bad:
                     data["slots"].append([ot, it.key, it.shape])
+                if not any(stage == "parse" for _, stage, _, _ in bad):
+                    data["parseable"].append([ot, it.key, it.shape])
             for key, ty, singleton in docs.children_of(ot):
                 child = docs.Block(ty, [], singleton)
                 doc = nest(ot, docs.Block(ot, [child], False)) if ot != "map" else docs.Block(ot, [child], False)
@@ -175,7 +178,20 @@ def usable_slots():
     for ot in docs.object_types():
         _usable[ot] = [it for it in docs.slot_items(ot) if (ot, it.key, it.shape) in good]
     _child_ok = set(tuple(x) for x in data["children"])
+    par = set(tuple(x) for x in data.get("parseable", data["slots"]))
+    global _parseable
+    _parseable = {ot: [it for it in docs.slot_items(ot) if (ot, it.key, it.shape) in par] for ot in docs.object_types()}
     return _usable
+
+
+_parseable = None
+
+
+def parseable_slots():
+    """objtype -> Items whose documents are accepted by loads in every context (whatever they load to):
+    the pool for properties that do not need the intended structure (round trip, idempotence, options)"""
+    usable_slots()
+    return _parseable
 
 
 def usable_children():
